@@ -22,10 +22,11 @@ func init() {
 			{"DIRECTION-CONSISTENT", ruleDirectionConsistent},
 			{"PREFIX-END-SHAPE", rulePrefixEndShape},
 			{"SCALAR-KIND-UNIFORM", ruleScalarKindUniform},
+			{"UNWRAP-EQ-TIME", ruleUnwrapEqTime},
 			{"KEY-LAYOUT", ruleKeyLayout},
 		},
 		Meta: eng.PropMeta{
-			Explanation: "Order preservation for all value pairs and round-trip equality are numerical statements and are not decided. Decided is the agreement of the writer's and the reader's tables: (MARKER-PARTITION) by constant evaluation of PeekType's case guards over all 256 byte values, every marker constant selects exactly one Type (no two guards overlap), each marker lands in its own family, null is the smallest and descending-null the largest marker (exhaustive, 256 cells); (MARKER-ORDER) inside each family the markers are ordered as the value classes are (NaN < negative < zero < positive < descending-NaN for both float widths, false < true); (DIRECTION-DISPATCH) EncodeFieldValue, DecodeFieldValue and decodeJSON pick the Descending member of a codec family exactly on the descending edge and the Ascending member otherwise, for every kind; (DIRECTION-CONSISTENT) a ...Descending codec never calls an ...Ascending codec of a value (and vice versa) unless it compensates by bitwise inversion, and where a descending codec inverts the arguments it hands to a shared helper (or takes out of one) it inverts all of them — a half-inverted tuple orders one component the wrong way; (KEY-LAYOUT) EncodeIndexDataStoreKey and DecodeIndexDataStoreKey agree on the separator and pass each field's own Descending flag to the value codec. (PREFIX-END-SHAPE) as in C07: the successor of a key prefix is the copy cut after the incremented byte. (SCALAR-KIND-UNIFORM) a GraphQL scalar with a single Go representation returns that representation from ParseLiteral for every literal form (a Float32 bound written as an integer literal is a float32, not a float64), because a filter bound is encoded into the index key under the tag of its Go kind.",
+			Explanation: "Order preservation for all value pairs and round-trip equality are numerical statements and are not decided. Decided is the agreement of the writer's and the reader's tables: (MARKER-PARTITION) by constant evaluation of PeekType's case guards over all 256 byte values, every marker constant selects exactly one Type (no two guards overlap), each marker lands in its own family, null is the smallest and descending-null the largest marker (exhaustive, 256 cells); (MARKER-ORDER) inside each family the markers are ordered as the value classes are (NaN < negative < zero < positive < descending-NaN for both float widths, false < true); (DIRECTION-DISPATCH) EncodeFieldValue, DecodeFieldValue and decodeJSON pick the Descending member of a codec family exactly on the descending edge and the Ascending member otherwise, for every kind; (DIRECTION-CONSISTENT) a ...Descending codec never calls an ...Ascending codec of a value (and vice versa) unless it compensates by bitwise inversion, and where a descending codec inverts the arguments it hands to a shared helper (or takes out of one) it inverts all of them — a half-inverted tuple orders one component the wrong way; (KEY-LAYOUT) EncodeIndexDataStoreKey and DecodeIndexDataStoreKey agree on the separator and pass each field's own Descending flag to the value codec. (PREFIX-END-SHAPE) as in C07: the successor of a key prefix is the copy cut after the incremented byte. (SCALAR-KIND-UNIFORM) a GraphQL scalar with a single Go representation returns that representation from ParseLiteral for every literal form (a Float32 bound written as an integer literal is a float32, not a float64), because a filter bound is encoded into the index key under the tag of its Go kind. (UNWRAP-EQ-TIME) an index matcher that compares two unwrapped values with == compares times by instant first, like the _eq/_ne matchers — a DateTime decoded from a key is in UTC, a filter literal keeps its offset.",
 			NotDecided:  "that the byte order of encodings equals the value order for every pair of values, and that decode(encode(v)) == v for every value (negative zero, subnormals, extreme integers, strings with 0x00/0xFF)",
 		},
 	})
